@@ -255,6 +255,19 @@ pub fn scenarios(prop: Prop) -> Vec<StreamTrace> {
         let ps = vec![piece("noise:zeros", "noise", vec![0u8; 70_000], false), frame_1005(), frame_piece(0, 0, 0), piece("noise:zeros", "noise", vec![0u8; 61_000], false), frame_piece(1, 0, 7)];
         add(build(prop, "frames_inside_128k_buffer", ps, vec![65_536], vec![], 4, "aimed"), &mut out);
     }
+    // 11. crafted checksums: 000000, ffffff, and a checksum that itself starts a candidate
+    //     (d3 00 00 ..: the frame's tail + following bytes look like an L=0 frame)
+    for (ti, target) in [0x000000u32, 0xFFFFFF, 0xD30000, 0xD30001, 0xD3D3D3].iter().enumerate() {
+        for l in [3usize, 4, 19, 300] {
+            let payload: Vec<u8> = (0..l).map(|i| (i as u8).wrapping_mul(13).wrapping_add(ti as u8)).collect();
+            if let Some(f) = crate::refmodel::make_frame_with_crc(0, &payload, *target) {
+                let v = ((ti + l) % 4) as u8 + 1;
+                let n = f.len();
+                let ps = vec![piece(&format!("foreign:L={},crc={:06x}", l, target), "foreign", f, true), frame_1005(), frame_piece(0, 0, 0)];
+                add(build(prop, &format!("crafted_crc_{:06x}_L{}", target, l), ps, vec![1, n - 3, n - 2, n - 1, n, n + 1, n + 3], vec![], v, "aimed"), &mut out);
+            }
+        }
+    }
     // 9. receiver restarts in the middle of a frame
     for v in 1..=4u8 {
         let ps = vec![frame_1005(), frame_piece(30, 0, 0x21), frame_1005(), frame_piece(0, 0, 0)];
